@@ -535,6 +535,10 @@ def handleWire (m : Msg) (ae : AddEnv) : PM Unit := do
       maybeRequest
   | .allowedFast i =>
     if !s.canFast then failTag "AllowedFast:nofast" "peer doesn't implement Fast extension"
+    if s.info then
+      let n ← numPieces
+      if i ≥ n % U32 then failTag "AllowedFast:range" "value out of range"
+    else if i ≥ maxPiecesPre then failTag "AllowedFast:range-pre" "value out of range"
     if !isFast s i then
       tagAs "AllowedFast:new"
       modify (fun s => { s with fast := s.fast ++ [i] })
